@@ -326,6 +326,20 @@ pub fn fuzz_entry(data: &[u8], obs: &mut Obs) -> Result<(), Fail> {
     check(&Case { msgs, forms, part }, obs)
 }
 
+// ------------------------------------------------------------------ coverage-guided lane (libFuzzer)
+
+fn fuzz_spec() -> crate::fuzzlane::FuzzSpec {
+    crate::fuzzlane::FuzzSpec { target: "framing", oracle: fuzz_entry, seeds: crate::fuzzlane::seeds_framing, max_len: 256, runs_per_worker: 300000 }
+}
+
+fn fuzz_run(ctx: &Ctx, known: &[crate::runner::KnownFinding]) -> crate::runner::LaneReport {
+    crate::fuzzlane::run(&fuzz_spec(), ctx, known)
+}
+
+fn fuzz_replay(v: serde_json::Value) -> Result<(), Fail> {
+    crate::fuzzlane::replay(&fuzz_spec(), v)
+}
+
 pub fn property() -> Property {
     Property {
         id: "C06",
@@ -335,6 +349,7 @@ pub fn property() -> Property {
         lanes: vec![
             Box::new(PLane { name: "decoder", cases: |t| t.pick(500, 10_000), strat, check }),
             Box::new(PLane { name: "e2e", cases: |t| t.pick(300, 5_000), strat: e2e_strat, check: check_e2e }),
+            Box::new(crate::runner::FnLane { name: "fuzz", run: fuzz_run, replay: fuzz_replay }),
         ],
         workers: (8, 16),
     }
